@@ -127,17 +127,17 @@ def exports_for(ctx):
     # exhaustive: every single damage of the small skeletons
     add("dmg-stmt", start="Stmt", cx="bodyq", maxtok=4 if th else 3, maxdmg=1, dkinds=dall if th else ("void", "splice", "drop", "dup", "swap"))
     add("dmg-stmt-e", start="Stmt", cx="bodye", maxtok=3 if th else 2, maxdmg=1, dkinds=dall)
-    add("types-var", start="Type", cx="var", maxtok=8 if th else 5, maxdmg=1, dkinds=("void", "drop", "dup"))
+    add("types-var", start="Type", cx="var", maxtok=8 if th else 4, maxdmg=1, dkinds=("void", "drop", "dup"))
     add("types-field", start="Type", cx="field", maxtok=6 if th else 4, maxdmg=1, dkinds=("void", "swap", "unbalance") if th else ("void", "swap"))
-    add("consts", start="ConstVal", cx="const", maxtok=6 if th else 4, maxdmg=1, dkinds=("void", "drop", "dup", "swap"))
+    add("consts", start="ConstVal", cx="const", maxtok=6 if th else 3, maxdmg=1, dkinds=("void", "drop", "dup", "swap"))
     add("decl", start="Decl", cx="top", maxtok=9 if th else 8)
     add("decl-dmg", start="Decl", cx="top", maxtok=6 if th else 5, maxdmg=1, dkinds=("void", "splice", "drop", "swap") if th else ("void", "drop", "swap"))
     add("decl-ctx", start="Decl", cx="decls", maxtok=8 if th else 7)
     # exhaustive: every token-kind pair; triples over the core alphabet
     add("adj2-body", mode="adjacency", cx="bodyq", adjk=2, adjalpha="full")
     add("adj2-top", mode="adjacency", cx="top", adjk=2, adjalpha="full")
-    add("adj3-body", mode="adjacency", cx="bodye", adjk=3, adjalpha="core")
     if th:
+        add("adj3-body", mode="adjacency", cx="bodye", adjk=3, adjalpha="core")
         add("adj3-top", mode="adjacency", cx="top", adjk=3, adjalpha="core")
         add("adj3-full", mode="adjacency", cx="bodyq", adjk=3, adjalpha="full")
     # nesting at, below and beyond the documented limits (63 types, 255 expressions/bodies)
@@ -147,7 +147,7 @@ def exports_for(ctx):
                           ("const", "ConstVal", 3), ("struct", "Fields", 3), ("top", "Decl", 8 if th else 7)):
         add("nest-%s" % cx, start=start, cx=cx, maxtok=mt, maxdmg=1, dkinds=("nest",), depths=lim)
     # seeded simulation of larger derivations
-    n = 1500 if th else 60
+    n = 1500 if th else 40
     dsim = dall + ("nest",)
     add("sim-body-q", start="Body", cx="bodyq", maxtok=70, mintok=35, simulate="num=%d" % n, depth=400)
     add("sim-body-e", start="Body", cx="bodye", maxtok=50, mintok=25, simulate="num=%d" % n, depth=400)
@@ -367,9 +367,9 @@ def run(ctx, only_sources=None):
     tokp = os.path.join(gendir, "tokens.ndjson")
     write_tokens(tokp, seqs)
     srcp = os.path.join(gendir, "sources.ndjson")
-    k = 4 if th else 1
+    k = 8 if th else 1
     r = ctx.run([bins["toolreplay"], "gen", "-seed", str(ctx.seed), "-repo", vlib.REPO, "-tokens", tokp, "-nest", nestp, "-contexts", ctxp, "-out", srcp,
-                 "-random", str(3000 * k), "-mut-small", str(5000 * k), "-mut-std", str(1500 * k), "-mut-pkg", str(250 * k),
+                 "-random", str(1500 * k), "-mut-small", str(3000 * k), "-mut-std", str(800 * k), "-mut-pkg", str(100 * k),
                  "-flat-every", "7"], timeout=1800)
     if r.returncode != 0:
         raise ToolingError("toolreplay gen failed: " + r.stderr[-2000:])
